@@ -10,6 +10,7 @@
 -/
 import Upnp.Lemmas.C20Igd
 import Upnp.Lemmas.C20Counters
+import Upnp.Lemmas.C20Float
 import Upnp.Gen.C20Igd
 namespace Upnp.C20
 open Upnp PyDict
@@ -39,21 +40,20 @@ theorem route_sound (ord : List S → List S) (T : List (S × List S)) (d : Dev)
     r.action ∈ s.acts ∧ ∃ a ∈ r.aliases, ∃ tys, get? T a = some tys ∧
       ∃ ty ∈ ord tys, (ty, s) ∈ allServices d := by
   obtain ⟨a, ha, hact⟩ := List.exists_of_findSome?_eq_some h
-  obtain ⟨hsvc, hmem⟩ := action_some ord T hact
-  obtain ⟨tys, hT, ty, hty, hf⟩ := service_some ord T hsvc
+  obtain ⟨hmem, tys, hT, ty, hty, hf⟩ := action_some ord T hact
   exact ⟨hmem, a, ha, tys, hT, ty, hty, findService_mem hf⟩
 
 /-- **Routing, generic in the tables.**  Let the alias table cover the action's family
-    (`hcov`: every service type of the family is registered under an alias the operation uses)
-    and put only versions of one service under one alias (`hkind`).  Then on every gateway in
-    which the action is defined only by members of its family and versions of one service agree
-    on it (`stdGateway`), for every iteration order of the type sets: the observation of the call
-    satisfies the judge — the request goes to an offered service defining the action, and the
-    answer is "not available" iff no offered service defines it. -/
+    (`hcov`: every service type of the family is registered under an alias the operation uses).
+    Then on every gateway in which the action is defined only by members of its family
+    (`stdGateway`; nothing is assumed about which versions of a service are offered together or
+    which of them implement an optional action, nor about duplicates), for every iteration order
+    of the type sets: the observation of the call satisfies the judge — the request goes to an
+    offered service defining the action, and the answer is "not available" iff no offered service
+    defines it. -/
 theorem routing_spec (ord : List S → List S) (hord : ∀ l x, x ∈ ord l ↔ x ∈ l)
     (T : List (S × List S)) (d : Dev) (r : OpRow)
     (hcov : ∀ ty ∈ specFamily r.action, ∃ a ∈ r.aliases, ∃ tys, get? T a = some tys ∧ ty ∈ tys)
-    (hkind : ∀ a tys, get? T a = some tys → ∀ ty ∈ tys, ∀ ty' ∈ tys, kind ty = kind ty')
     (hstd : stdGateway d r.action = true) :
     callOk (offered d) r.action (obsOf (route ord T d r)) = true := by
   cases hr : route ord T d r with
@@ -72,29 +72,19 @@ theorem routing_spec (ord : List S → List S) (hord : ∀ l x, x ∈ ord l ↔ 
     exfalso
     have hdef : r.action ∈ s0.acts := by simpa using hcon
     simp only [stdGateway, Bool.and_eq_true, List.all_eq_true] at hstd
-    obtain ⟨hfam, hunif⟩ := hstd
+    obtain ⟨hfam, hfirst⟩ := hstd
     have hkfam : k ∈ specFamily r.action := by
       have := hfam (k, s0) hk
       simpa [hdef] using this
     obtain ⟨a, ha, tys, hT, hkt⟩ := hcov k hkfam
-    -- the alias `a` resolves to some offered service `s2` of the same kind
     obtain ⟨s1, hs1⟩ := findService_isSome_of_mem hk
-    have hsome : ((ord tys).findSome? (findService d)).isSome := by
-      rw [List.findSome?_isSome_iff]
-      exact ⟨k, (hord tys k).mpr hkt, by simp [hs1]⟩
-    obtain ⟨s2, hs2⟩ := Option.isSome_iff_exists.mp hsome
-    obtain ⟨ty2, hty2, hf2⟩ := List.exists_of_findSome?_eq_some hs2
-    have hk2 : kind ty2 = kind k := hkind a tys hT ty2 ((hord tys ty2).mp hty2) k hkt
-    have hm2 := findService_mem hf2
-    have hagree := hunif (ty2, s2) hm2 (k, s0) hk
-    have hdef2 : r.action ∈ s2.acts := by
-      simp [hk2, hdef] at hagree
-      exact hagree
-    have hsvc : service ord T d a = some s2 := by simp [service, hT, hs2]
-    have hact : action ord T d a r.action = some s2 := by simp [action, hsvc, hdef2]
+    have hdef1 : r.action ∈ s1.acts := by
+      have := hfirst (k, s0) hk
+      simpa [hdef, hs1] using this
     have hnone := List.findSome?_eq_none_iff.mp hr a ha
-    rw [hact] at hnone
-    cases hnone
+    simp only [action, hT] at hnone
+    have := List.findSome?_eq_none_iff.mp hnone k ((hord tys k).mpr hkt)
+    simp [hs1, hdef1] at this
 
 /-! ### the tables of the current source -/
 
@@ -108,10 +98,6 @@ def familiesCovered (T : List (S × List S)) (ops : List OpRow) : Bool :=
   ops.all fun r => !(specFamily r.action).isEmpty &&
     (specFamily r.action).all fun ty => r.aliases.any fun a => ((get? T a).getD []).contains ty
 
-/-- one alias groups only versions of one service -/
-def aliasOneKind (T : List (S × List S)) : Bool :=
-  T.all fun p => p.2.all fun ty => p.2.all fun ty' => kind ty == kind ty'
-
 /-- (false on the unrepaired tree: `"WANPPP"` is not a key — F20a) -/
 theorem igd_aliases_resolvable :
     aliasesResolvable Gen.C20Igd.igdServiceTypes Gen.C20Igd.igdOps = true := by decide
@@ -121,26 +107,43 @@ theorem igd_aliases_resolvable :
 theorem igd_families_covered :
     familiesCovered Gen.C20Igd.igdServiceTypes Gen.C20Igd.igdOps = true := by decide
 
-theorem igd_alias_one_kind : aliasOneKind Gen.C20Igd.igdServiceTypes = true := by decide
-
 /-- **Routing of the IGD facade as it is in the source now**: for every standard gateway tree,
     every iteration order of the alias sets and every one of the facade's operations. -/
 theorem igd_routing_spec (ord : List S → List S) (hord : ∀ l x, x ∈ ord l ↔ x ∈ l) (d : Dev)
     (r : OpRow) (hr : r ∈ Gen.C20Igd.igdOps) (hstd : stdGateway d r.action = true) :
     callOk (offered d) r.action (obsOf (route ord Gen.C20Igd.igdServiceTypes d r)) = true := by
-  apply routing_spec ord hord _ d r _ _ hstd
-  · intro ty hty
-    have h := igd_families_covered
-    simp only [familiesCovered, List.all_eq_true, Bool.and_eq_true, List.any_eq_true] at h
-    obtain ⟨a, ha, hc⟩ := (h r hr).2 ty hty
-    cases hg : get? Gen.C20Igd.igdServiceTypes a with
-    | none => simp [hg] at hc
-    | some tys => exact ⟨a, ha, tys, hg, by simpa [hg] using hc⟩
-  · intro a tys hT ty hty ty' hty'
-    have h := igd_alias_one_kind
-    simp only [aliasOneKind, List.all_eq_true] at h
-    have := h (a, tys) (mem_of_get? hT) ty hty ty' hty'
-    simpa using this
+  apply routing_spec ord hord _ d r _ hstd
+  intro ty hty
+  have h := igd_families_covered
+  simp only [familiesCovered, List.all_eq_true, Bool.and_eq_true, List.any_eq_true] at h
+  obtain ⟨a, ha, hc⟩ := (h r hr).2 ty hty
+  cases hg : get? Gen.C20Igd.igdServiceTypes a with
+  | none => simp [hg] at hc
+  | some tys => exact ⟨a, ha, tys, hg, by simpa [hg] using hc⟩
+
+/-- the model's "does the getter ask at all" equals the judge's "some offered service defines the
+    action" (used by the driver to turn scripted readings into `Raw.na`) -/
+theorem avail_agree (ord : List S → List S) (hord : ∀ l x, x ∈ ord l ↔ x ∈ l) (d : Dev)
+    (r : OpRow) (hr : r ∈ Gen.C20Igd.igdOps) (hstd : stdGateway d r.action = true) :
+    (route ord Gen.C20Igd.igdServiceTypes d r).isSome = availSpec d r.action := by
+  have h := igd_routing_spec ord hord d r hr hstd
+  cases hro : route ord Gen.C20Igd.igdServiceTypes d r with
+  | none =>
+    simp only [hro, obsOf, callOk, if_true, List.isEmpty_nil, Bool.true_and, List.all_eq_true] at h
+    simp only [Option.isSome_none, availSpec]
+    symm
+    rw [Bool.eq_false_iff]
+    intro hany
+    obtain ⟨s, hs, hc⟩ := List.any_eq_true.mp hany
+    have := h s hs
+    simp at this
+    exact this (by simpa using hc)
+  | some s =>
+    simp only [hro, obsOf, callOk, Bool.false_eq_true, if_false, List.any_eq_true] at h
+    obtain ⟨s', hs', hc⟩ := h
+    simp only [Option.isSome_some, availSpec]
+    symm
+    exact List.any_eq_true.mpr ⟨s', hs', by simp at hc; simpa using hc.2⟩
 
 /-- the order the driver derives from the observed set iteration order is a legal order -/
 theorem ordOf_mem (observed l : List S) (x : S) : x ∈ ordOf observed l ↔ x ∈ l := by
@@ -170,6 +173,19 @@ example :
     ∧ stdGateway d ip.action = true ∧ stdGateway d br.action = true
     ∧ obsOf (route id Gen.C20Igd.igdServiceTypes d ip) = ⟨[7], false⟩
     ∧ obsOf (route id Gen.C20Igd.igdServiceTypes d br) = ⟨[], true⟩ := by decide
+
+/-- non-vacuity (both versions offered, an optional action implemented by one of them only —
+    F20b): the gateway satisfies `stdGateway`, and whichever version the set iteration yields first,
+    the request reaches the version that defines the action. -/
+example :
+    let ip1 : Svc := ⟨tyIP1, 1, ["GetExternalIPAddress".toList]⟩
+    let ip2 : Svc := ⟨tyIP2, 2, ["GetExternalIPAddress".toList, "RequestTermination".toList]⟩
+    let d : Dev := .mk "IGD".toList [] [("WCD".toList, .mk "WCD".toList [(tyIP1, ip1), (tyIP2, ip2)] [])]
+    let rt : OpRow := ⟨"async_request_termination".toList, ["WANIPC".toList, "WANPPPC".toList],
+      "RequestTermination".toList, true, "None".toList⟩
+    rt ∈ Gen.C20Igd.igdOps ∧ stdGateway d rt.action = true
+    ∧ obsOf (route id Gen.C20Igd.igdServiceTypes d rt) = ⟨[2], false⟩
+    ∧ obsOf (route List.reverse Gen.C20Igd.igdServiceTypes d rt) = ⟨[2], false⟩ := by decide
 
 /-! ## Part 2 — counters -/
 
@@ -266,6 +282,62 @@ theorem rate_spec (isBytes : Bool) (tNow tLast : Int) (cur last : Val) :
     refine ⟨⟨(c - l) * 1000000, (if isBytes then 1024 else 1) * (tNow - tLast)⟩, by simp [derive, h], rfl, rfl,
       Int.mul_nonneg (by omega) (by omega), ?_⟩
     cases isBytes <;> simp <;> omega
+
+/-- **The float the code computes is within the judge's tolerance of `rate_spec`'s exact value.**
+    `dv = current − last ≥ 0`, `K` = 1024 (bytes) or 1, `mu` = elapsed microseconds.  The code
+    evaluates `(dv / K) / total_seconds()`: `dv / K` is exact (`dv < 2^53`, `K` a power of two),
+    `total_seconds() = tp/tq` is the correctly rounded `mu / 10^6` (`hT`), the result `rp/rq` is
+    the correctly rounded quotient of the two (`hR`); `rounded` = within relative 2^-53, which
+    IEEE-754 round-to-nearest guarantees for normal doubles.  Then `approx` (relative 2^-50
+    around `dv·10^6 / (K·mu)`, the fraction `rate_spec` gives) accepts the result. -/
+theorem float_rate_within_tolerance (dv K mu tp tq rp rq : Int)
+    (hdv : 0 ≤ dv) (hK : 0 < K) (hmu : 0 < mu) (htq : 0 < tq) (htp : 0 < tp) (hrq : 0 < rq)
+    (hrp : 0 ≤ rp) (hT : rounded tp tq mu 1000000) (hR : rounded rp rq (dv * tq) (K * tp)) :
+    approx ⟨rp, rq⟩ (dv * 1000000) (K * mu) = true := by
+  obtain ⟨hT1, hT2⟩ := hT
+  obtain ⟨hR1, hR2⟩ := hR
+  have hKtp : 0 < K * tp := Int.mul_pos hK htp
+  have two : ∀ x y : Int, pow2_50 * x ≤ y → pow2_50 * (-x) ≤ y → (x.natAbs : Int) * pow2_50 ≤ y := by
+    intro x y h1 h2
+    simp only [pow2_50] at *
+    omega
+  simp only [approx, hrq, hrp, decide_true, Bool.true_and, decide_eq_true_eq]
+  apply two
+  all_goals
+    by_cases h0 : dv = 0
+    · subst h0
+      have hp : rp * (K * tp) = 0 := by
+        simp only [pow2_53] at hR1 hR2
+        omega
+      have : rp = 0 := by
+        rcases Int.mul_eq_zero.mp hp with h | h
+        · exact h
+        · omega
+      subst this
+      simp [pow2_50]
+  all_goals
+    have hdv' : 0 < dv := by omega
+    have hu : 0 < tp * 1000000 := by omega
+    have hq : 0 < dv * tq * rq := Int.mul_pos (Int.mul_pos hdv' htq) hrq
+    have huq : 0 < tp * 1000000 * (dv * tq * rq) := Int.mul_pos hu hq
+    have hid : rp * (K * tp) * (dv * 1000000 * rq) * (mu * tq)
+        = rp * (K * mu) * (tp * 1000000) * (dv * tq * rq) := by grind
+    have key := rel_compose pow2_53 pow2_50 (by decide) (by decide) (by decide)
+      (tp * 1000000) (mu * tq) (rp * (K * tp)) (dv * tq * rq) (rp * (K * mu)) (dv * 1000000 * rq)
+      (Int.mul_pos hmu htq) (Int.le_of_lt hq)
+      (Int.mul_nonneg (Int.mul_nonneg hdv (by decide)) (Int.le_of_lt hrq)) hT1 hT2 hR1 hR2 hid
+  · have := Int.le_of_mul_le_mul_right key.1 huq
+    grind
+  · have := Int.le_of_mul_le_mul_right key.2 huq
+    grind
+
+/-- non-vacuity: 1000 bytes in 3.000001 s — `total_seconds()` and the quotient as Python computes
+    them (`float.as_integer_ratio`), both inexact, satisfy `rounded`; the result is accepted. -/
+example :
+    rounded 3377700846427779 1125899906842624 3000001 1000000
+    ∧ rounded 2932030030059323 9007199254740992 (1000 * 1125899906842624) (1024 * 3377700846427779)
+    ∧ approx ⟨2932030030059323, 9007199254740992⟩ (1000 * 1000000) (1024 * 3000001) = true := by
+  refine ⟨by unfold rounded; decide, by unfold rounded; decide, by decide⟩
 
 /-- the first sample of a fresh profile carries no rate -/
 theorem first_sample_no_rates (t0 t : Int) (r : Readings) (s : Sample)
